@@ -339,7 +339,9 @@ class Engine:
         limit = self.conc_limit if limit is None else limit
         small = self.conc_small if small is None else small
         v = None
-        prefer = list(range(small)) + [x for x in self.conc_prefer if x >= small or x < 0]
+        W = t.size()
+        prefer = [x for x in list(range(small)) + [x for x in self.conc_prefer if x >= small or x < 0]
+                  if -(1 << (W - 1)) <= x < (1 << (W - 1))]      # only values the term can denote (signed reading)
         for i in prefer:
             if self._sat_with_model(t == i):
                 v = i
